@@ -131,6 +131,8 @@ def handleLLO (op : String) (j : Json) : Option (P Json) :=
       let env := mkEnv check []
       let mf ← asNatList (fldD j "missingFormats")
       let rounds ← getArr j "rounds"
+      -- the plugin factory refuses configurations that `OffchainConfig.Validate` rejects
+      if !cfg.valid then return Json.mkObj [("err", "factory")]
       let start : GoRes Outcome :=
         match fldD j "start" with
         | .null => codecRoundTrip cfg (initialOutcome cfg)
